@@ -218,7 +218,7 @@ def __init__(self, dim=None, data=None):
 
 GEN = """
 (* ---- glue, GENERATED by harness/translate_c17.py from poppropagator.py, valueaxis.py and ratematrix.py ---- *)
-From Coq Require Import QArith Qcanon Qfield Lqa.
+From Coq Require Import QArith Qcanon Qfield Lqa String.
 From QV Require Import Base.Util Model.C17axis Proofs.C17gen.
 Open Scope Z_scope.
 Section GenPM.
@@ -325,6 +325,13 @@ Proof.
   intros [d|] [[r c]|]; unfold gen_rm_ctor, rm_ctor; cbv zeta; rewrite ?(Z.eqb_sym 0), ?(Z.eqb_sym r d), ?(Z.eqb_sym c r); try reflexivity;
     destruct (r =? c); cbn [negb]; reflexivity.
 Qed.
+
+(* ---- purity: methods of PopulationPropagator for which the write-set analysis (harness/translate_c15.py: abstract interpretation
+   over origins, views alias their arguments, all paths) found NO store through the propagator, its rate matrix, its time axis or the
+   arguments.  The list is a record of what the translator established; a method that writes makes the translation fail. ---- *)
+Definition gen_pure_methods : list string := [%(pure)s]%%string.
+Lemma gen_pure_methods_cover : gen_pure_methods = ["get_PropagationMatrix"; "propagate"]%%string.
+Proof. reflexivity. Qed.
 """
 
 
@@ -409,8 +416,23 @@ def extra(repo):
     if s1 != s2:
         raise Untranslatable("RateMatrix.__init__: zeros of shape (%s, %s)" % (s1, s2))
     out["zs"] = s1
+    # ---------------- purity of the propagator's methods: the write-set analysis of translate_c15 (abstract interpreter over
+    # origins; views made by numpy.asarray & co. alias their argument) finds no store through the propagator, its rate matrix,
+    # its time axis or the arguments - on every path, the corrections branches (whose arithmetic is not modelled) included
+    import translate_c15 as t15
+    index = t15.Index(repo)
+    types = {("self", ()): "PopulationPropagator", ("self", ("timeAxis",)): "TimeAxis", ("arg:timeaxis", ()): "TimeAxis"}
+    pure = []
+    for meth, argroles in (("get_PropagationMatrix", {"timeaxis"}), ("propagate", {"pini"})):
+        w, _last, _notes = t15.run(index, "PopulationPropagator", meth, types, {}, argroles)
+        if w:
+            raise Untranslatable("PopulationPropagator.%s writes %s" % (meth, sorted("%s.%s" % (r, ".".join(pth)) for r, pth in w)))
+        pure.append(meth)
+    out["pure"] = "; ".join('"%s"' % m for m in pure)
     what = ["poppropagator.py:PopulationPropagator.get_PropagationMatrix (sub-axis guard, start of the sub-axis: same / Ns steps / extra exponential, "
             "table U[:,:,i] = E.U[:,:,i-1], default return)",
             "poppropagator.py:PopulationPropagator.__init__, propagate, statements around the nest of _propagate_short_exp",
-            "valueaxis.py:ValueAxis.__init__ (linspace grid), max, is_subset_of, is_extension_of", "ratematrix.py:RateMatrix.__init__"]
+            "valueaxis.py:ValueAxis.__init__ (linspace grid), max, is_subset_of, is_extension_of", "ratematrix.py:RateMatrix.__init__",
+            "poppropagator.py:PopulationPropagator.get_PropagationMatrix / propagate with everything they call: empty write set on the propagator, "
+            "its rate matrix, its time axis and the arguments (all paths, the corrections branches included)"]
     return GEN % out, what
